@@ -730,4 +730,276 @@ theorem run_inv (kind : Nat → Kind) (jobs : Nat → List Act) (sched : List (N
     | none => exact ih s h
     | some s' => exact ih s' (step_inv kind jobs s s' t c h hs)
 
+/-! ### consequences -/
+
+theorem finished_free {kind : Nat → Kind} {jobs : Nat → List Act} {s : St} (h : Inv kind jobs s) (hf : Finished s)
+    (b : Nat) : s.lock b = none := by
+  cases hl : s.lock b with
+  | none => rfl
+  | some t =>
+    have := (h.brn b).hold t hl
+    rw [(hf t).2] at this; simp [holds] at this
+
+/-- at every moment, what goroutine t got into branch b is a prefix of what it is to send there, in its order -/
+theorem proj_prefix {kind : Nat → Kind} {jobs : Nat → List Act} {s : St} (h : Inv kind jobs s) (t b : Nat) :
+    proj t (s.hist b) <+: linesFor b (jobs t) := by
+  have := (h.thr t).projq b
+  exact ⟨pend b (s.thr t).ph ++ linesFor b (s.thr t).todo, by rw [← List.append_assoc]; exact this⟩
+
+theorem finished_merge {kind : Nat → Kind} {jobs : Nat → List Act} {s : St} (h : Inv kind jobs s) (hf : Finished s)
+    (b : Nat) : IsMergeOf (fun t => linesFor b (jobs t)) (wlines s b) := by
+  refine ⟨s.hist b, rfl, fun t => ?_⟩
+  have := (h.thr t).projq b
+  rw [(hf t).1, (hf t).2] at this
+  simpa [pend, linesFor] using this
+
+theorem finished_quiet {kind : Nat → Kind} {jobs : Nat → List Act} {s : St} (h : Inv kind jobs s) (hf : Finished s)
+    (b : Nat) : Quiet s b := (h.brn b).free (finished_free h hf b)
+
+/-- a goroutine that is not scheduled does not move -/
+theorem step_thr_other {kind : Nat → Kind} {early : Bool} {s s' : St} {t c u : Nat} (hs : step kind early s t c = some s')
+    (hut : u ≠ t) : s'.thr u = s.thr u := by
+  unfold step at hs
+  cases hph : (s.thr t).ph with
+  | idle =>
+    simp only [hph] at hs
+    cases htd : (s.thr t).todo with
+    | nil => simp [htd] at hs
+    | cons a rest =>
+      cases a with
+      | write br line =>
+        simp only [htd] at hs
+        split at hs
+        · simp only [Option.some.injEq] at hs; subst hs; simp [upd_other _ _ _ _ hut]
+        · cases hs
+      | sync br =>
+        simp only [htd] at hs
+        split at hs
+        · simp only [Option.some.injEq] at hs; subst hs; simp [upd_other _ _ _ _ hut]
+        · cases hs
+  | enc k br line rest =>
+    simp only [hph] at hs
+    cases rest with
+    | cons x rest => simp only [Option.some.injEq] at hs; subst hs; simp [upd_other _ _ _ _ hut]
+    | nil =>
+      simp only at hs
+      split at hs
+      · cases hs
+      · simp only [Option.some.injEq] at hs; subst hs; simp [upd_other _ _ _ _ hut]
+  | pre k br line =>
+    simp only [hph] at hs
+    split at hs
+    · simp only [Option.some.injEq] at hs; subst hs; rfl
+    · split at hs <;> (simp only [Option.some.injEq] at hs; subst hs; simp [upd_other _ _ _ _ hut])
+  | emit k br line i =>
+    simp only [hph] at hs
+    split at hs <;> (simp only [Option.some.injEq] at hs; subst hs; simp [upd_other _ _ _ _ hut])
+  | copy k br line i =>
+    simp only [hph] at hs
+    split at hs <;> (simp only [Option.some.injEq] at hs; subst hs; simp [upd_other _ _ _ _ hut])
+  | fin k => simp only [hph, Option.some.injEq] at hs; subst hs; simp [upd_other _ _ _ _ hut]
+  | flush br => simp only [hph, Option.some.injEq] at hs; subst hs; simp [upd_other _ _ _ _ hut]
+
+theorem run_thr_other {kind : Nat → Kind} {early : Bool} (u : Nat) (sched : List (Nat × Nat)) :
+    ∀ s, (∀ tc ∈ sched, tc.1 ≠ u) → (run kind early s sched).thr u = s.thr u := by
+  induction sched with
+  | nil => intro s _; rfl
+  | cons tc ts ih =>
+    intro s hn
+    obtain ⟨t, c⟩ := tc
+    have ht : u ≠ t := fun e => hn (t, c) (by simp) e.symm
+    have hts : ∀ tc ∈ ts, tc.1 ≠ u := fun tc htc => hn tc (List.mem_cons_of_mem _ htc)
+    simp only [run]
+    cases hs : step kind early s t c with
+    | none => exact ih s hts
+    | some s' => simp only []; rw [ih s' hts, step_thr_other hs ht]
+
+/-! ### tee programs -/
+
+theorem linesFor_append (b : Nat) (p q : List Act) : linesFor b (p ++ q) = linesFor b p ++ linesFor b q := by
+  induction p with
+  | nil => rfl
+  | cons a r ih =>
+    cases a with
+    | write br l => by_cases hb : br = b <;> simp [linesFor, hb, ih]
+    | sync br => simp [linesFor, ih]
+
+theorem linesFor_teeCall_ge (enc : Nat → Bytes) (b : Nat) : ∀ B, B ≤ b → linesFor b (teeCall B enc) = []
+  | 0, _ => rfl
+  | B + 1, h => by
+    have ih := linesFor_teeCall_ge enc b B (by omega)
+    have hne : B ≠ b := by omega
+    simp only [teeCall, List.range_succ, List.map_append, linesFor_append] at ih ⊢
+    simp [ih, linesFor, hne]
+
+theorem linesFor_teeCall_lt (enc : Nat → Bytes) (b : Nat) : ∀ B, b < B → linesFor b (teeCall B enc) = [enc b]
+  | 0, h => by omega
+  | B + 1, h => by
+    simp only [teeCall, List.range_succ, List.map_append, linesFor_append]
+    by_cases hb : b = B
+    · subst hb
+      have := linesFor_teeCall_ge enc b b (Nat.le_refl _)
+      simp only [teeCall] at this
+      simp [this, linesFor]
+    · have ih := linesFor_teeCall_lt enc b B (by omega)
+      have hne : B ≠ b := fun e => hb e.symm
+      simp only [teeCall] at ih
+      simp [ih, linesFor, hne]
+
+theorem linesFor_teeProg (B b : Nat) (hb : b < B) : ∀ es : List (Nat → Bytes), linesFor b (teeProg B es) = es.map (· b)
+  | [] => rfl
+  | e :: es => by
+    have ih := linesFor_teeProg B b hb es
+    simp only [teeProg, List.flatMap_cons, linesFor_append] at ih ⊢
+    rw [linesFor_teeCall_lt e b B hb, ih]; rfl
+
+/-! ### from merges to the executable acceptance predicate -/
+
+theorem cutAux_proper : ∀ (bs acc : Bytes) (ls : List Bytes), (10 : UInt8) ∉ acc → cutAux bs acc = some ls →
+    (∀ l ∈ ls.drop 1, Proper l) ∧ (∀ l, ls.head? = some l → ∃ body, l = acc ++ body ++ [10] ∧ (10 : UInt8) ∉ body)
+  | [], [], ls, _, h => by simp [cutAux] at h; subst h; simp
+  | [], _ :: _, ls, _, h => by simp [cutAux] at h
+  | b :: bs, acc, ls, hacc, h => by
+    simp only [cutAux] at h
+    split at h
+    · rename_i hb
+      cases hc : cutAux bs [] with
+      | none => simp [hc] at h
+      | some ls' =>
+        simp [hc] at h; subst h
+        obtain ⟨h1, h2⟩ := cutAux_proper bs [] ls' (by simp) hc
+        refine ⟨?_, ?_⟩
+        · intro l hl
+          simp only [List.drop_succ_cons, List.drop_zero] at hl
+          cases ls' with
+          | nil => cases hl
+          | cons x r =>
+            rcases List.mem_cons.mp hl with rfl | hr
+            · obtain ⟨body, hb1, hb2⟩ := h2 l rfl; exact ⟨body, by simpa using hb1, hb2⟩
+            · exact h1 l (by simpa using hr)
+        · intro l hl; simp at hl; subst hl; exact ⟨[], by simp [hb], by simp⟩
+    · rename_i hb
+      have hacc' : (10 : UInt8) ∉ acc ++ [b] := by
+        simp only [List.mem_append, List.mem_singleton, not_or]; exact ⟨hacc, fun e => hb e.symm⟩
+      obtain ⟨h1, h2⟩ := cutAux_proper bs (acc ++ [b]) ls hacc' h
+      refine ⟨h1, ?_⟩
+      intro l hl
+      obtain ⟨body, hb1, hb2⟩ := h2 l hl
+      refine ⟨b :: body, by simpa [List.append_assoc] using hb1, ?_⟩
+      simp only [List.mem_cons, not_or]; exact ⟨fun e => hb e.symm, hb2⟩
+
+/-- the pieces `cut` produces are proper lines (one trailing '\n', no other) and concatenate to the input -/
+theorem cut_sound (bs : Bytes) (ls : List Bytes) (h : cut bs = some ls) : bs = ls.flatten ∧ ∀ l ∈ ls, Proper l := by
+  refine ⟨by simpa using cutAux_sound bs [] ls h, ?_⟩
+  obtain ⟨h1, h2⟩ := cutAux_proper bs [] ls (by simp) h
+  intro l hl
+  cases ls with
+  | nil => cases hl
+  | cons x r =>
+    rcases List.mem_cons.mp hl with rfl | hr
+    · obtain ⟨body, hb1, hb2⟩ := h2 l rfl; exact ⟨body, by simpa using hb1, hb2⟩
+    · exact h1 l (by simpa using hr)
+
+theorem isMergeOf_mem {per : Nat → List Bytes} {ls : List Bytes} (hm : IsMergeOf per ls) {l : Bytes} (hl : l ∈ ls) :
+    ∃ t, l ∈ per t := by
+  obtain ⟨hist, hmap, hproj⟩ := hm
+  rw [← hmap] at hl
+  obtain ⟨⟨t, l'⟩, hmem, rfl⟩ := List.mem_map.mp hl
+  refine ⟨t, ?_⟩
+  have := hproj t
+  rw [← this]
+  exact List.mem_map.mpr ⟨(t, l'), List.mem_filter.mpr ⟨hmem, by simp⟩, rfl⟩
+
+theorem map_flatten_flatten {α} (groups : List (List (List α))) :
+    (groups.map List.flatten).flatten = groups.flatten.flatten := by
+  induction groups with
+  | nil => rfl
+  | cons g r ih => simp [List.flatten_append, ih]
+
+theorem run_append (kind : Nat → Kind) (early : Bool) (a b : List (Nat × Nat)) :
+    ∀ s, run kind early s (a ++ b) = run kind early (run kind early s a) b := by
+  induction a with
+  | nil => intro s; rfl
+  | cons tc ts ih =>
+    intro s
+    obtain ⟨t, x⟩ := tc
+    simp only [List.cons_append, run]
+    cases step kind early s t x with
+    | none => exact ih s
+    | some s' => exact ih s'
+
+/-- the per-goroutine lists of N goroutines as the list the executable check takes -/
+def perList (N : Nat) (per : Nat → List Bytes) : List (List Bytes) := (List.range N).map per
+
+theorem perList_getD (N : Nat) (per : Nat → List Bytes) (hN : ∀ t, N ≤ t → per t = []) (t : Nat) :
+    (perList N per).getD t [] = per t := by
+  by_cases ht : t < N
+  · simp [perList, List.getD_eq_getElem?_getD, ht]
+  · simp [perList, List.getD_eq_getElem?_getD, ht, hN t (by omega)]
+
+theorem merge_validMerge (N : Nat) (per : Nat → List Bytes) (hN : ∀ t, N ≤ t → per t = []) (ls : List Bytes)
+    (hm : IsMergeOf per ls) (hp : ∀ l ∈ ls, Proper l) : validMerge (perList N per) ls.flatten = true := by
+  obtain ⟨hist, hmap, hproj⟩ := hm
+  simp only [validMerge, cut_flatten ls hp]
+  rw [← hmap]
+  exact isMerge_complete hist _ (fun t => by rw [perList_getD N per hN, hproj t])
+
+/-- the closing `Sync()` / `Stop()` of the main goroutine after all loggers have returned: two steps (Lock; Flush,
+    Unlock) and the bufio buffer of that branch is empty -/
+theorem final_sync_drains {kind : Nat → Kind} {jobs : Nat → List Act} {s : St} (h : Inv kind jobs s) (m b c c' : Nat)
+    (hm : (s.thr m).todo = [.sync b] ∧ (s.thr m).ph = .idle)
+    (ho : ∀ t, t ≠ m → (s.thr t).todo = [] ∧ (s.thr t).ph = .idle) :
+    Finished (run kind false s [(m, c), (m, c')]) ∧ (run kind false s [(m, c), (m, c')]).buf b = [] := by
+  have hl : s.lock b = none := by
+    cases hl : s.lock b with
+    | none => rfl
+    | some t =>
+      have := (h.brn b).hold t hl
+      by_cases ht : t = m
+      · subst ht; rw [hm.2] at this; simp [holds] at this
+      · rw [(ho t ht).2] at this; simp [holds] at this
+  have h1 : step kind false s m c =
+      some { s with thr := upd s.thr m { todo := [], ph := .flush b }, lock := upd s.lock b (some m) } := by
+    unfold step; simp [hm.1, hm.2, hl]
+  simp only [run, h1]
+  have h2 : step kind false { s with thr := upd s.thr m { todo := [], ph := .flush b }, lock := upd s.lock b (some m) } m c' =
+      some { s with thr := upd (upd s.thr m { todo := [], ph := .flush b }) m { todo := [], ph := .idle },
+                    calls := if s.buf b = [] then s.calls else upd s.calls b (s.calls b ++ [s.buf b]),
+                    buf := upd s.buf b [], lock := upd (upd s.lock b (some m)) b none } := by
+    unfold step; simp
+  simp only [h2]
+  refine ⟨fun t => ?_, by simp⟩
+  by_cases ht : t = m
+  · subst ht; simp
+  · simpa [upd_other _ _ _ _ ht] using ho t ht
+
+/-! ### a concrete finished run (non-vacuity witness used by Props/C04): tee of a Lock(sink) and a 5-byte
+    BufferedWriteSyncer, a 6-byte line, a goroutine issuing the closing Syncs -/
+
+def exKind : Nat → Kind := fun b => if b = 0 then .locked else .buffered 5
+def exJobs : Nat → List Act := fun t =>
+  if t = 0 then teeProg 2 [fun _ => [97, 10], fun _ => [98, 99, 100, 101, 102, 10], fun _ => [103, 10]]
+  else if t = 1 then teeProg 2 [fun _ => [120, 10]]
+  else if t = 2 then [.sync 0, .sync 1] else []
+def exSched : List (Nat × Nat) :=
+  ((List.range 70).flatMap fun _ => [(0, 0), (1, 1)]) ++ [(2, 0), (2, 0), (2, 0), (2, 0)]
+
+set_option maxRecDepth 8000 in
+theorem exSched_threads : exSched.all (fun tc => tc.1 < 3) = true := by decide
+
+theorem ex_finished : Finished (run exKind false (init exJobs) exSched) := by
+  intro t
+  by_cases h0 : t = 0
+  · subst h0; exact ⟨by decide, by decide⟩
+  · by_cases h1 : t = 1
+    · subst h1; exact ⟨by decide, by decide⟩
+    · by_cases h2 : t = 2
+      · subst h2; exact ⟨by decide, by decide⟩
+      · have : (run exKind false (init exJobs) exSched).thr t = (init exJobs).thr t :=
+          run_thr_other t exSched _ (by
+            intro tc htc
+            have := List.all_eq_true.mp exSched_threads tc htc
+            simp at this; omega)
+        rw [this]; simp [init, exJobs, h0, h1, h2]
+
 end ZapVerif.TeeBws
